@@ -16,6 +16,7 @@ completion (a CANCELED stage has no RUNNING task; a completed stage neither).
 from __future__ import annotations
 
 import json
+import sqlite3
 from typing import Any
 
 from sim.choices import Choices
@@ -106,6 +107,21 @@ def s_machine(ch: Choices) -> dict[str, Any]:
                             rec["ok"] = True
                             rec["tries"].append({"base_v": base_v, "base_tv": base_tv, "ok": True})
                             break
+                        except sqlite3.OperationalError as e:
+                            # busy timeout expired (every writer waited for a lock somebody else held: the scheduler
+                            # delivers "database is locked" to one of them).  The caller's save failed without any claim
+                            # of success: roll the connection back, as a caller must, and try again or give up.
+                            if "locked" not in str(e).lower() and "busy" not in str(e).lower():
+                                raise
+                            rec["tries"].append({"base_v": base_v, "base_tv": base_tv, "ok": False, "busy": True})
+                            w.probe("busy_timeout_in_save")
+                            try:
+                                store._get_connection().rollback()
+                            except Exception:
+                                pass
+                            if attempts > op["retries"] + 3:
+                                rec["error"] = str(e)[:100]
+                                break
                         except ConcurrencyError as e:
                             rec["tries"].append({"base_v": base_v, "base_tv": base_tv, "ok": False})
                             w.probe("concurrency_error")
